@@ -17,7 +17,11 @@ Search (independent of the model): brute-force validation of real `plan_rechunk`
   at / just above k*itemsize for every block size k an intermediate step can take), an exhaustive sweep over crossed
   column-blocks -> row-blocks geometries plus seeded random geometries, validated in BYTES (exact rationals); and the same
   through x.rechunk(new, threshold=, block_size_limit=) with every block of the executed graph measured (.nbytes).
-Failure signatures: budget:bound_degree, budget:planner, api:budget, api:values, api:chunks, api:raises, plan:invalid, plan:nontermination,
+  Unknown (nan) block sizes (harness/props_ext/c15_unknown.py): the POSITION pattern of nans in a chunk tuple (start / end /
+  middle / everywhere / alternating / single / islands / both ends) on one or several axes through old_to_new, intersect_chunks,
+  _validate_rechunk, plan_rechunk and the estimates, and through x.rechunk(dict / tuple / scalar specs) on arrays assembled from
+  known and boolean-masked pieces (values vs NumPy, advertised chunks, every block's shape, refusal when an unknown axis would change).
+Failure signatures: nan:crosswalk:*, nan:validate:*, nan:estimate:*, nan:api:*, budget:bound_degree, budget:planner, api:budget, api:values, api:chunks, api:raises, plan:invalid, plan:nontermination,
   plan:raises:zero-width, plan:raises, crosswalk:<what>, history:budget, history:differs-from-explicit,
   history:differs-from-fresh-process, history:invalid, history:raises, history:nontermination.
 """
@@ -891,7 +895,11 @@ def replay_case(ctx, R, rp):
     case = rp.get("case") if "case" in rp else None
     if case is not None:
         kind = case.get("kind")
-        if kind == "plan":
+        if isinstance(kind, str) and kind.startswith("nan-"):
+            from harness.props_ext import c15_unknown
+
+            c15_unknown.replay(ctx, R, case)
+        elif kind == "plan":
             pairs = []
             check_plan_case(ctx, R, {k: case[k] for k in ("kind", "old", "new", "itemsize", "threshold", "limit", "degree_limit")}, pairs)
             if pairs:
@@ -978,5 +986,8 @@ def run(ctx, replay=None):
     plan_search(ctx, R)
     fraction_search(ctx, R)
     history_search(ctx, R)
+    from harness.props_ext import c15_unknown
+
+    c15_unknown.search(ctx, R)
     if ctx.disagreements:
         targeted(ctx, R)
